@@ -49,6 +49,8 @@ def run(env):
                 for wf, tg in ((str((int(f) * g_) % P_), "wrong-factor*g"), (str(pow(int(f), 2, P_)), "wrong-factor^2"), ("1", "wrong-factor=1")):
                     if wf != f:
                         st2.append({"ctx": ctx, "op": "verify_decryption", "args": [pk, wf, ct[0], ct[1], pf, a[2]], "_want": False if big else None, "_src": c, "tag": tg})
+                pfn = list(pf); pfn[2] = str(int(pf[2]) + q_)
+                st2.append({"ctx": ctx, "op": "verify_decryption", "args": [pk, f, ct[0], ct[1], pfn, a[2]], "_want": False, "_src": c, "tag": "noncanonical-challenge"})
                 st2.append({"ctx": ctx, "op": "verify_decryption", "args": [pk, f, str((int(ct[0]) * g_) % P_), ct[1], pf, a[2]], "_want": False if big else None, "_src": c, "tag": "other-ciphertext-mhr"})
                 st2.append({"ctx": ctx, "op": "verify_decryption", "args": [pk, f, ct[0], str((int(ct[1]) * g_) % P_), pf, a[2]], "_want": False if big else None, "_src": c, "tag": "other-ciphertext-gr"})
                 st2.append({"ctx": ctx, "op": "verify_decryption", "args": [str((int(pk) * g_) % P_), f, ct[0], ct[1], pf, a[2]], "_want": False if big else None, "_src": c, "tag": "other-key"})
